@@ -11,6 +11,7 @@ import (
 	"context"
 	"fmt"
 	"os"
+	"path"
 	"path/filepath"
 	"sort"
 	"strings"
@@ -40,11 +41,13 @@ const (
 
 // ---------------------------------------------------------------- C06 runner
 
-// input: (view (openfail-path ...) ((( when id ) ...) ending) capacity chunklen walkfail [transport [holds]])
+// input: (view (openfail-path ...) ((( when id ) ...) ending) capacity chunklen walkfail [transport [holds [subdirs]]])
 //
 //	walkfail: 0 = none, j+1 = the walk fails before reporting entry j (j = #entries: after the last)
 //	transport: see c0607_transport.go (absent = 0)
 //	holds: ((kind n) ...) sends of Send that are kept in flight, see c0607Hold in c0607_tap.go
+//	subdirs: (name ...): the source is fsutil.SubDirFS over the top-level directories of the view
+//	(each a MemFS of its own), listed in this order; () or absent = one MemFS over the whole view
 //
 // output: (trace hang late (sendoverlaps recvoverlaps))
 //
@@ -105,6 +108,32 @@ func run0601(in Sx) (out Sx) {
 			}
 		}
 	}
+	// the source as a composite: every top-level directory of the view is its own FS, handed to
+	// fsutil.SubDirFS in the order given by the case (any order: SubDirFS has to sort)
+	var src fsutil.FS = mfs
+	if len(in.L) > 8 && len(in.L[8].L) > 0 {
+		byName := map[string]*MNode{}
+		for _, n := range view {
+			byName[n.Name] = n
+		}
+		var dirs []fsutil.Dir
+		for _, x := range in.L[8].L {
+			n := byName[x.Str()]
+			if n == nil || !n.IsDir() {
+				return L(L(), N(4), N(0), L(N(0), N(0)), S("subdirs: not a top-level directory of the view"))
+			}
+			name := n.Name
+			sub := &MemFS{Roots: c06SubForest(n.Kids, name), ChunkLen: chunk}
+			sub.OpenHook = func(p string) error { return mfs.OpenHook(name + "/" + p) }
+			st := n.Stat.CloneVT()
+			st.Path = name
+			dirs = append(dirs, fsutil.Dir{Stat: st, FS: sub})
+		}
+		var err error
+		if src, err = fsutil.SubDirFS(dirs); err != nil {
+			return L(L(), N(4), N(0), L(N(0), N(0)), S(err.Error()))
+		}
+	}
 	done := make(chan struct{})
 	go func() {
 		defer close(done)
@@ -114,7 +143,7 @@ func run0601(in Sx) (out Sx) {
 				tap.Return(false)
 			}
 		}()
-		err := fsutil.Send(ctx, conn, mfs, tap.Progress)
+		err := fsutil.Send(ctx, conn, src, tap.Progress)
 		tap.Return(err == nil)
 	}()
 	rr := startRefReceiver(sp.Peer, script, sp.TearDown)
@@ -440,6 +469,15 @@ func c06Held(in Sx, transport int, holds ...c0607Hold) Sx {
 	return L(append(append([]Sx{}, in.L...), NI(transport), c0607HoldsSx(holds))...)
 }
 
+// a C06 case (without options) whose source is fsutil.SubDirFS over the view's top-level directories in the given order
+func c06Sub(in Sx, transport int, subdirs ...string) Sx {
+	ds := make([]Sx, len(subdirs))
+	for k, d := range subdirs {
+		ds[k] = S(d)
+	}
+	return L(append(append([]Sx{}, in.L...), NI(transport), L(), L(ds...))...)
+}
+
 // a C07 case (without options) over a transport with a rejecting receive filter and held sends
 func c07Ext(in Sx, transport int, rejects []string, holds ...c0607Hold) Sx {
 	rj := make([]Sx, len(rejects))
@@ -456,6 +494,55 @@ func shuffle[T any](r *Rng, xs []T) {
 		j := r.Intn(i + 1)
 		xs[i], xs[j] = xs[j], xs[i]
 	}
+}
+
+// SubDirFS prefixes what a sub-FS reports with the directory's name: paths, hard-link targets,
+// absolute symlink targets.  The view of a composite case holds the FINAL values; c06SubForest
+// gives the forest the sub-FS serves (prefix removed), c06Prefixed is its inverse.
+func c06SubForest(kids []*MNode, dir string) []*MNode {
+	var out []*MNode
+	for _, k := range kids {
+		c := &MNode{Name: k.Name, Stat: k.Stat.CloneVT(), Content: k.Content, Kids: c06SubForest(k.Kids, dir)}
+		switch m := os.FileMode(c.Stat.Mode); {
+		case m&os.ModeSymlink != 0:
+			if strings.HasPrefix(c.Stat.Linkname, "/"+dir+"/") {
+				c.Stat.Linkname = strings.TrimPrefix(c.Stat.Linkname, "/"+dir)
+			}
+		case c.Stat.Linkname != "":
+			c.Stat.Linkname = strings.TrimPrefix(c.Stat.Linkname, dir+"/")
+		}
+		out = append(out, c)
+	}
+	return out
+}
+
+func c06Prefixed(kids []*MNode, dir string) {
+	for _, k := range kids {
+		switch m := os.FileMode(k.Stat.Mode); {
+		case m&os.ModeSymlink != 0:
+			if strings.HasPrefix(k.Stat.Linkname, "/") {
+				k.Stat.Linkname = path.Join("/"+dir, k.Stat.Linkname)
+			}
+		case k.Stat.Linkname != "":
+			k.Stat.Linkname = path.Join(dir, k.Stat.Linkname)
+		}
+		c06Prefixed(k.Kids, dir)
+	}
+}
+
+// a view made of 2-6 top-level directories, each generated on its own
+func genCompositeView(r *Rng) []*MNode {
+	names := append([]string{}, "a", "b", "ab", "a-b", "a b", "a.b", "a0", "a!", "c", "~", "\x7f", "\x80", "é", "A", "0", "...", ".a", "foo", "zeta", "mid", "alpha")
+	shuffle(r, names)
+	names = names[:2+r.Intn(5)]
+	var view []*MNode
+	for _, d := range names {
+		kids := GenView(r, TreeOpts{MaxEntries: 8, Types: r.Chance(60), HardLinks: r.Chance(30), Xattrs: r.Chance(20), Owners: r.Chance(20)})
+		c06Prefixed(kids, d)
+		view = append(view, &MNode{Name: d, Stat: &types.Stat{Mode: uint32(os.ModeDir | 0755), ModTime: int64(1600000000+r.Intn(1000)) * 1e9}, Kids: kids})
+	}
+	sort.Slice(view, func(a, b int) bool { return view[a].Name < view[b].Name })
+	return view
 }
 
 func genC06View(r *Rng) ([]*MNode, string) {
@@ -480,8 +567,30 @@ func genC06(g *Gen) {
 	for i := 0; i < n; i++ {
 		r := g.Rng
 		view, cls := genC06View(r)
+		// the source is a composite (fsutil.SubDirFS) whose directories are listed in any order
+		var subdirs []Sx
+		composite := r.Chance(15)
+		if composite {
+			view, cls = genCompositeView(r), "composite"
+			var names []string
+			for _, n := range view {
+				names = append(names, n.Name)
+			}
+			switch r.Intn(4) {
+			case 0: // as sorted
+			case 1: // reverse
+				for a, b := 0, len(names)-1; a < b; a, b = a+1, b-1 {
+					names[a], names[b] = names[b], names[a]
+				}
+			default:
+				shuffle(r, names)
+			}
+			for _, n := range names {
+				subdirs = append(subdirs, S(n))
+			}
+		}
 		// id 0 requestable: a regular file at the root that sorts before (almost) everything else
-		if r.Chance(20) {
+		if !composite && r.Chance(20) {
 			sz := r.Intn(40)
 			view = append(view, &MNode{Name: "!" + Pick(r, []string{"a", "first", "0"}), Stat: &types.Stat{Mode: 0644, Size: int64(sz), ModTime: 1600000000e9}, Content: fillContent(r, sz)})
 			sort.SliceStable(view, func(a, b int) bool { return view[a].Name < view[b].Name })
@@ -489,7 +598,7 @@ func genC06(g *Gen) {
 		}
 		entries := WalkEntries(view)
 		// exercise the hard-link reset: drop the first member of a link group
-		if r.Chance(25) {
+		if !composite && r.Chance(25) {
 			for _, e := range entries {
 				if isReg(e) && e.Linkname != "" {
 					if removePath(&view, e.Linkname) {
@@ -619,7 +728,7 @@ func genC06(g *Gen) {
 			chunk = 1000
 		}
 		walkfail := 0
-		if r.Chance(5) {
+		if r.Chance(5) && !composite {
 			walkfail = 1 + r.Intn(total+1)
 			cls += "+walkfail"
 		}
@@ -650,7 +759,10 @@ func genC06(g *Gen) {
 				cls += "+hold"
 			}
 		}
-		in := L(ViewSx(view), L(openfail...), L(L(opsSx...), NI(ending)), NI(capacity), NI(chunk), NI(walkfail), NI(transport), c0607HoldsSx(holds))
+		if composite {
+			walkfail = 0
+		}
+		in := L(ViewSx(view), L(openfail...), L(L(opsSx...), NI(ending)), NI(capacity), NI(chunk), NI(walkfail), NI(transport), c0607HoldsSx(holds), L(subdirs...))
 		out := g.Emit(0x0601, in, len(distinct) >= 2 || bad != "", cls)
 		if len(out.L) >= 4 && out.L[3].Kind == 'l' && len(out.L[3].L) == 2 && out.L[3].L[0].Int()+out.L[3].L[1].Int() > 0 {
 			overlapping++
@@ -692,6 +804,13 @@ func derivePrior(r *Rng, view []*MNode) ([]*MNode, []string) {
 				continue // absent (with everything below it)
 			}
 			c := &MNode{Name: k.Name, Stat: k.Stat.CloneVT(), Content: append([]byte{}, k.Content...)}
+			if isReg(k.Stat) && k.Stat.Linkname == "" && int64(len(c.Content)) != k.Stat.Size && k.Stat.Size < 1<<21 {
+				// the copy on disk has the ANNOUNCED size (that is what the diff compares), whatever the sender will serve
+				for int64(len(c.Content)) < k.Stat.Size {
+					c.Content = append(c.Content, 'p')
+				}
+				c.Content = c.Content[:k.Stat.Size]
+			}
 			c.Stat.Xattrs = nil // not compared by the diff; user.* xattrs cannot be set on special files
 			m := os.FileMode(k.Stat.Mode)
 			switch {
@@ -762,11 +881,50 @@ func genC07(g *Gen) {
 			cls = "wide"
 		}
 		fixLinkChains(view)
+		// a file of a few full packets, so that short and full payloads can mix
+		if !huge && r.Chance(12) {
+			sz := 33000 + r.Intn(40000)
+			view = append(view, &MNode{Name: "zmid", Stat: &types.Stat{Mode: 0644, Size: int64(sz), ModTime: 1600000000e9}, Content: fillContent(r, sz)})
+			sort.SliceStable(view, func(a, b int) bool { return view[a].Name < view[b].Name })
+			cls += "+mid"
+		}
+		// the bytes the sender serves for an id need not have the length announced in its STAT
+		// (the file changed between the walk and the read; the protocol does not tie them)
+		if !huge && r.Chance(35) {
+			if len(c07ResizeServed(r, view, "")) > 0 {
+				cls += "+resized"
+			}
+		}
 		var prior []*MNode
 		var unchanged []string
 		if !huge && r.Chance(45) {
 			prior, unchanged = derivePrior(r, view)
 			cls += "+prior"
+		}
+		// entries whose base name is at the NAME_MAX boundary and which the destination already holds in
+		// another version: they have to be fetched again and replace what is there
+		if !huge && r.Chance(15) {
+			for k := 1 + r.Intn(3); k > 0; k-- {
+				name := c07LongName(r, Pick(r, []int{240, 241, 242, 250, 254, 255}))
+				content := fillContent(r, 1+r.Intn(30))
+				n := &MNode{Name: name, Stat: &types.Stat{Mode: 0644, Size: int64(len(content)), ModTime: 1600000100e9}, Content: content}
+				old := &MNode{Name: name, Stat: &types.Stat{Mode: 0644, Size: 3, ModTime: 1500000000e9}, Content: []byte("old")}
+				if r.Chance(25) { // the old entry is a directory with something in it
+					old = &MNode{Name: name, Stat: &types.Stat{Mode: uint32(os.ModeDir | 0755), ModTime: 1500000000e9}, Kids: []*MNode{fileNode("x", "y")}}
+				}
+				dup := false
+				for _, v := range view {
+					dup = dup || v.Name == name
+				}
+				if dup {
+					continue
+				}
+				view = append(view, n)
+				prior = append(prior, old)
+			}
+			sort.SliceStable(view, func(a, b int) bool { return view[a].Name < view[b].Name })
+			sort.SliceStable(prior, func(a, b int) bool { return prior[a].Name < prior[b].Name })
+			cls += "+longnames"
 		}
 		merge, differ := false, 0
 		if r.Chance(10) {
@@ -785,16 +943,26 @@ func genC07(g *Gen) {
 				nreg++
 			}
 		}
-		sc := refSendScript{ChunkMode: r.Intn(2), StatWeight: Pick(r, []int{0, 10, 50, 90, 100}), Pick: r.Intn(4), Seed: r.U64()}
+		sc := refSendScript{ChunkMode: r.Intn(4), StatWeight: Pick(r, []int{0, 10, 50, 90, 100}), Pick: r.Intn(4), Seed: r.U64()}
 		sc.Chunk = Pick(r, []int{1, 2, 7, 100, 4096, 32768, 65536, 1 << 20})
 		if huge {
 			sc.Chunk = Pick(r, []int{1 << 20, 1 << 20, 65536, 300000})
 		} else if bytesTotal > 20000 && sc.Chunk < 100 {
 			sc.Chunk = 4096
 		}
+		if sc.ChunkMode >= 2 && sc.Chunk > 4096 {
+			sc.Chunk = Pick(r, []int{1, 8, 100, 4096})
+		}
 		if r.Chance(15) && !huge {
 			sc.Ending = 1 + r.Intn(3)
 			sc.CloseAfter = r.Intn(len(entries) + 2 + nreg)
+			if sc.Ending >= 2 && r.Chance(50) {
+				// the stream ends in the DATA phase: all STATs and the end marker have been consumed,
+				// some requested ids have not been terminated yet
+				sc.StatWeight = 100
+				sc.CloseAfter = len(entries) + 1 + r.Intn(2*nreg+1)
+				cls += "+indata"
+			}
 			cls += fmt.Sprintf("+end%d", sc.Ending)
 		}
 		capacity := Pick(r, []int{0, 0, 1, 2, 8, 64, r.Intn(65)})
@@ -859,6 +1027,70 @@ func dirNode(name string, kids ...*MNode) *MNode {
 	return &MNode{Name: name, Stat: &types.Stat{Mode: uint32(os.ModeDir | 0755), ModTime: 1600000000e9}, Kids: kids}
 }
 
+// c07ResizeServed makes, for some regular files of the announced view, the announced Size differ
+// from the length of the content the reference sender serves: shorter content (at least one
+// byte kept when there was one), longer content, no content at all although Size > 0.
+// Returns the paths changed (value: whether the announced Size changed).
+func c07ResizeServed(r *Rng, nodes []*MNode, dir string) map[string]bool {
+	out := map[string]bool{}
+	for _, n := range nodes {
+		p := n.Name
+		if dir != "" {
+			p = dir + "/" + n.Name
+		}
+		if n.IsDir() {
+			for q, v := range c07ResizeServed(r, n.Kids, p) {
+				out[q] = v
+			}
+			continue
+		}
+		if !isReg(n.Stat) || n.Stat.Linkname != "" || len(n.Content) > 100000 || !r.Chance(30) {
+			continue
+		}
+		k := int64(1 + r.Intn(20))
+		if r.Chance(10) {
+			k = int64(4096 + r.Intn(40000))
+		}
+		size0 := n.Stat.Size
+		switch r.Intn(4) {
+		case 0: // announced larger than served
+			n.Stat.Size = int64(len(n.Content)) + k
+		case 1: // served shorter than announced, something is served
+			if len(n.Content) >= 2 {
+				n.Content = append([]byte{}, n.Content[:1+r.Intn(len(n.Content)-1)]...)
+			} else {
+				n.Stat.Size = int64(len(n.Content)) + k
+			}
+		case 2: // served longer than announced
+			n.Content = append(append([]byte{}, n.Content...), fillContent(r, int(k))...)
+		case 3: // nothing served although Size > 0
+			n.Content = nil
+			if n.Stat.Size == 0 {
+				n.Stat.Size = k
+			}
+		}
+		out[p] = n.Stat.Size != size0
+	}
+	return out
+}
+
+// a base name of exactly n bytes (first letter drawn, so that several can coexist)
+func c07LongName(r *Rng, n int) string {
+	b := make([]byte, n)
+	for i := range b {
+		b[i] = "nopqrstu"[r.Intn(8)]
+	}
+	b[0] = 'L'
+	return string(b)
+}
+
+// a regular file whose announced size is not the length of what is served
+func sizedNode(name, content string, size int64) *MNode {
+	n := fileNode(name, content)
+	n.Stat.Size = size
+	return n
+}
+
 func fileNode(name string, content string) *MNode {
 	return &MNode{Name: name, Stat: &types.Stat{Mode: 0644, Size: int64(len(content)), ModTime: 1600000001e9}, Content: []byte(content)}
 }
@@ -913,6 +1145,17 @@ func directedC06() []Sx {
 			c0607Over(c06Input(flat(), nil, [][2]int{{5, 3}, {5, 0}, {5, 0}}, 0, 2, 0, 0), t),         // id 0 twice after a non-zero id: the second is a duplicate
 		)
 	}
+	// the source is a SubDirFS composite whose directories are not listed in path order
+	comp := func() []*MNode {
+		return []*MNode{dirNode("alpha", fileNode("a.txt", "A"), dirNode("sub", fileNode("b.txt", "BB"))), dirNode("mid", fileNode("m.txt", "MMM"), linkNode("n", "mid/m.txt", "MMM")),
+			dirNode("zeta", symNode("l", "/zeta/z1.txt"), fileNode("z1.txt", "Z"), fileNode("z2.bin", ""))}
+	} // ids: alpha0 alpha/a.txt1 alpha/sub2 alpha/sub/b.txt3 mid4 mid/m.txt5 mid/n6 zeta7 zeta/l8 zeta/z1.txt9 zeta/z2.bin10
+	compAll := [][2]int{{2, 1}, {4, 3}, {6, 5}, {12, 9}, {12, 10}}
+	over = append(over,
+		c06Sub(c06Input(comp(), nil, compAll, 0, 1, 0, 0), 0, "zeta", "mid", "alpha"),
+		c06Sub(c06Input(comp(), nil, compAll, 0, 0, 2, 0), 2, "mid", "zeta", "alpha"),
+		c06Sub(c06Input(comp(), nil, compAll, 0, 8, 0, 0), 4, "alpha", "mid", "zeta"),
+	)
 	// sends kept in flight while another goroutine of Send has something to write
 	for t := 0; t < c0607Transports; t++ {
 		over = append(over,
@@ -980,6 +1223,39 @@ func directedC07() []Sx {
 			c07Ext(c07Input(v(), nil, nil, false, 0, sc, 2, false), t, []string{"l"}),                // a symlink before z
 			c07Ext(c07Input(nested(), nil, nil, false, 0, sc, 1, false), t, []string{"src/cache"}),   // a directory with a file, before src/m and top
 			c07Ext(c07Input(v(), prior, []string{"d/a"}, true, 0, sc, 1, false), t, []string{"d/b"}), // Merge, prior destination, one file rejected
+		)
+	}
+	// the served bytes are shorter / longer than the announced Size, or absent: what is stored is what was sent
+	resized := func() []*MNode {
+		return []*MNode{dirNode("d", sizedNode("gone", "", 7), sizedNode("grown", "0123456789", 3), fileNode("same", "exact"), sizedNode("shrunk", "abcde", 10)),
+			sizedNode("e-big", string(fillContent(NewRng(5), 300)), 70000)}
+	}
+	rprior := []*MNode{dirNode("d", fileNode("gone", "old"), fileNode("shrunk", "an older, longer content"))}
+	for t := 0; t < c0607Transports; t++ {
+		over = append(over,
+			c07Ext(c07Input(resized(), nil, nil, false, 0, refSendScript{Chunk: 2, StatWeight: 50, Pick: 3, Seed: 31}, 1, false), t, nil),
+			c07Ext(c07Input(resized(), rprior, nil, false, 0, refSendScript{Chunk: 100, StatWeight: 100, Pick: 1, Seed: 32}, 0, false), t, nil),
+		)
+	}
+	// names at the NAME_MAX boundary that already exist in the destination in an older version (second transfer / Merge)
+	ln := func(c byte, n int) string { return "L" + strings.Repeat(string(c), n-1) }
+	longv := []*MNode{fileNode(ln('p', 240), "pp"), fileNode(ln('q', 250), ""), dirNode("dir", fileNode(ln('n', 255), "new content"), fileNode(ln('o', 241), "x"))}
+	longp := []*MNode{fileNode(ln('p', 240), "p"), dirNode(ln('q', 250), fileNode("in", "side")), dirNode("dir", fileNode(ln('n', 255), "old"), fileNode(ln('o', 241), "older"))}
+	over = append(over,
+		c07Ext(c07Input(longv, longp, nil, false, 0, refSendScript{Chunk: 4, StatWeight: 50, Pick: 3, Seed: 51}, 1, false), 0, nil),
+		c07Ext(c07Input(longv, longp, nil, true, 0, refSendScript{Chunk: 100, StatWeight: 100, Pick: 1, Seed: 52}, 0, false), 4, nil),
+	)
+	// short payloads before / between full ones for the same id (two ids interleaved)
+	mixed := []*MNode{fileNode("d-shortfirst", string(fillContent(NewRng(6), 32776))), fileNode("e-mixed", string(fillContent(NewRng(7), 65546)))}
+	over = append(over,
+		c07Ext(c07Input(mixed, nil, nil, false, 0, refSendScript{ChunkMode: 2, Chunk: 8, StatWeight: 50, Pick: 3, Seed: 41}, 1, false), 0, nil),
+		c07Ext(c07Input(mixed, nil, nil, false, 0, refSendScript{ChunkMode: 3, Chunk: 100, StatWeight: 100, Pick: 0, Seed: 42}, 0, false), 4, nil),
+	)
+	// the stream ends (EOF / ERR) in the DATA phase: end marker consumed, requests outstanding
+	for t := 0; t < c0607Transports; t++ {
+		over = append(over,
+			c07Ext(c07Input(many, nil, nil, false, 0, refSendScript{Chunk: 1, StatWeight: 100, Pick: 1, Ending: 2, CloseAfter: 13 + 30, Seed: 43}, 0, false), t, nil),
+			c07Ext(c07Input(many, nil, nil, false, 0, refSendScript{Chunk: 1, StatWeight: 100, Pick: 3, Ending: 3, CloseAfter: 13 + 40, Seed: 44}, 2, false), t, nil),
 		)
 	}
 	// one REQ kept in flight while the other writers have theirs to send
